@@ -11,9 +11,12 @@ def short(qn):
 
 def is_transparent_construct(n):
     """copy/move/converting constructions that only wrap their single argument"""
-    return n["k"] == "construct" and len(n.get("c", ())) == 1 and (
-        n.get("copy") or n.get("cls") in ("std::basic_string_view", "std::basic_string", "std::function",
-                                           "nano::tensor_range_t"))
+    if n["k"] != "construct":
+        return False
+    c = n.get("c", ())
+    if len(c) == 2 and c[1] is not None and c[1]["k"] == "defarg" and n.get("cls") == "std::basic_string":
+        return True
+    return len(c) == 1 and (n.get("copy") or n.get("cls") in ("std::basic_string_view", "std::basic_string", "std::function"))
 
 
 def skip(n):
